@@ -93,6 +93,17 @@ def sorted_copy_info(res, expr, fn, mod, _seen=None):
         return x, False
     if isinstance(expr, ast.DictComp) and len(expr.generators) == 1 and not expr.generators[0].ifs:
         g = expr.generators[0]
+        # {k: X[k] for k in sorted(X)}  /  sorted(X.keys())  /  sorted(list(X))
+        if isinstance(g.target, ast.Name) and isinstance(expr.key, ast.Name) and expr.key.id == g.target.id \
+                and isinstance(g.iter, ast.Call) and len(g.iter.args) == 1 and not g.iter.keywords \
+                and any(k == ("ext", "builtins.sorted") for k in res.kinds(g.iter.func, fn, mod)):
+            x = g.iter.args[0]
+            while isinstance(x, ast.Call) and ((isinstance(x.func, ast.Name) and x.func.id in ("list", "tuple") and len(x.args) == 1) or
+                                               (isinstance(x.func, ast.Attribute) and x.func.attr == "keys" and not x.args)):
+                x = x.args[0] if isinstance(x.func, ast.Name) else x.func.value
+            v = expr.value
+            if isinstance(v, ast.Subscript) and isinstance(v.slice, ast.Name) and v.slice.id == g.target.id and ast.unparse(v.value) == ast.unparse(x):
+                return x, False
         src = _sorted_items_source(res, g.iter, fn, mod)
         t = g.target
         if src is not None and isinstance(t, ast.Tuple) and len(t.elts) == 2 and all(isinstance(e, ast.Name) for e in t.elts) \
@@ -280,6 +291,16 @@ class PointsTo:
             for so in self._copy_sources(o):
                 if so is not o:
                     out |= self.getfield_nocopy(so, key, {o})
+        if o.kind == "dict" and isinstance(o.node, ast.Dict):
+            sp = self.var.get(("spread", id(o.node)))
+            if sp:
+                explicit = {const_str(k2) for k2 in o.node.keys if k2 is not None and const_str(k2) is not None}
+                for so in sp:
+                    if key is None or key not in explicit:
+                        got = self.getfield(so, key)
+                        if key is None:
+                            got = {c for c in got if not (c.kind == "loadedchild" and c.src[1] in explicit)}
+                        out |= got
         return out
 
     def getfield_nocopy(self, o, key, seen):
@@ -319,10 +340,26 @@ class PointsTo:
             return [ck]
         if isinstance(key, ast.Name) and fn is not None:
             bl = self.res.bindings(fn).get(key.id, [])
-            if bl and all(w == "iter" and isinstance(p_, (ast.Tuple, ast.List)) and p_.elts and all(const_str(x) is not None for x in p_.elts) for w, p_ in bl):
-                out = []
-                for w, p_ in bl:
+            # the innermost enclosing loop that binds the name decides (the same name may be reused by another loop)
+            par = self.prog.parent.get(key)
+            while par is not None and par is not fn.node:
+                if isinstance(par, ast.For) and isinstance(par.target, ast.Name) and par.target.id == key.id:
+                    bl = [("iter", par.iter)]
+                    break
+                par = self.prog.parent.get(par)
+            out = []
+            for w, p_ in bl:
+                if w != "iter":
+                    return None
+                if isinstance(p_, ast.Name) and p_.id not in self.res.bindings(fn) and fn.module is not None:
+                    # a module-level constant tuple of field names
+                    vals = fn.module.assigns.get(p_.id, [])
+                    p_ = vals[0] if len(vals) == 1 and isinstance(vals[0], ast.Tuple) else p_
+                if isinstance(p_, (ast.Tuple, ast.List)) and p_.elts and all(const_str(x) is not None for x in p_.elts):
                     out += [const_str(x) for x in p_.elts]
+                else:
+                    return None
+            if out:
                 return out
         return None
 
@@ -333,10 +370,18 @@ class PointsTo:
             return set()
         if isinstance(e, ast.Dict):
             o = self._obj("dict", e, fn, mod)
-            for k, v in zip(e.keys, e.values):
+            for idx, (k, v) in enumerate(zip(e.keys, e.values)):
                 if k is None:
+                    # {**src, "key": x}: a later explicit key replaces what the spread brought under that key
+                    later = {const_str(k2) for k2 in e.keys[idx + 1:] if k2 is not None and const_str(k2) is not None}
                     for so in self.pts(v, fn, mod):
-                        for kk in self.keys_of(so):
+                        for kk in self.keys_of(so) | ({STAR} if so.kind in ("loaded", "loadedchild") else set()):
+                            if kk in later:
+                                continue
+                            if kk == STAR:
+                                # everything the decoded source may hold, except the keys that are overridden
+                                self._add(self.var, ("spread", id(e)), {so})
+                                continue
                             self._add(self.field, (o, kk), self.getfield(so, kk))
                     continue
                 ck = const_str(k)
